@@ -48,7 +48,9 @@ class C06:
         for c in histories(tier, rng, n):
             lo, hi = gen.window(c["ops"], 2)
             wins = []
-            if c["src"] == "corpus" or tier != "quick":
+            if c["src"] == "corpus":
+                k = 3 if len(c["ops"]) < 12 else 12
+            elif tier != "quick":
                 k = 3
             else:
                 k = 2
